@@ -82,7 +82,12 @@ fn is_ascending(b: &[f64]) -> bool {
 }
 
 fn gen_hist_case(r: &mut Rng, exact: bool) -> HistCase {
-    let nb = r.range(1, 6);
+    // up to 16 bounds: the default bucket sets of real deployments have 10+ bounds, and an implementation may switch
+    // algorithm on the length (binary search above a threshold)
+    let nb = *r.pick(&[1usize, 2, 3, 4, 5, 6, 6, 9, 10, 11, 16]);
+    // "wide" exact values: n/1024 with 40-bit odd n — every partial sum is still exact in f64 (< 2^53 units) but not
+    // in any narrower accumulator (f32: 24 bits), so `_sum` is compared bit for bit on values that need the full width
+    let wide = exact && r.chance(1, 3);
     let mut bounds: Vec<f64> = vec![];
     let wild_pool: [f64; 16] = [
         f64::NEG_INFINITY,
@@ -133,13 +138,25 @@ fn gen_hist_case(r: &mut Rng, exact: bool) -> HistCase {
         }
     }
     let ascending = is_ascending(&bounds);
+    if wide {
+        // the bounds of a wide case may be wide as well
+        if r.chance(1, 2) && ascending {
+            bounds.push(dy(((r.next() >> 24) as i64) | 1));
+        }
+    }
+    let ascending = is_ascending(&bounds);
     let nbatches = r.range(0, 6);
     let mut batches = vec![];
     for _ in 0..nbatches {
-        let len = *r.pick(&[0usize, 1, 1, 2, 3, 5, 9, 17]);
+        let len = if r.chance(1, 24) { 600 } else { *r.pick(&[0usize, 1, 1, 2, 3, 5, 9, 17, 40]) };
         let mut b = vec![];
         for _ in 0..len {
-            let v = match r.below(12) {
+            // wide cases keep most of their sums finite (a NaN or two opposite infinities end every sum comparison)
+            let arm = match r.below(12) {
+                6 | 7 if wide && !r.chance(1, 6) => 8,
+                a => a,
+            };
+            let v = match arm {
                 0 | 1 | 2 | 3 => *r.pick(&bounds), // equal to a bound
                 4 => 0.0,
                 5 => -0.0,
@@ -152,7 +169,10 @@ fn gen_hist_case(r: &mut Rng, exact: bool) -> HistCase {
                     }
                 }
                 _ => {
-                    if exact {
+                    if wide {
+                        let n = ((r.next() >> 24) as i64) | 1; // odd, < 2^40
+                        dy(if r.chance(1, 2) { n } else { -n })
+                    } else if exact {
                         dy(r.range(0, 6000) as i64 - 3000)
                     } else {
                         // a neighbour of a pool value
@@ -196,7 +216,22 @@ fn run_hist_case(r: &mut Rng, out: &mut Out, c: &HistCase) {
     for s in 0..3 {
         out.op(&format!("c15 hnew {} {}", s, btok), "ok");
     }
-    out.count(&format!("H.exact={} ascending={} bounds={}", c.exact, c.ascending, c.bounds.len().min(4)));
+    out.count(&format!(
+        "H.exact={} ascending={} bounds={}",
+        c.exact,
+        c.ascending,
+        match c.bounds.len() {
+            0..=3 => "1-3",
+            4..=8 => "4-8",
+            _ => ">8",
+        }
+    ));
+    if c.bounds.len() > 8 && c.batches.iter().any(|b| b.iter().any(|v| v.is_nan())) {
+        out.count("H.NaN sample with more than 8 bounds");
+    }
+    if c.batches.iter().any(|b| b.len() > 64) {
+        out.count("H.batch longer than one bucket block (64)");
+    }
     let mut all: Vec<f64> = vec![];
     let mut prev: Option<Vec<u64>> = None;
     let (clock, _mock) = Clock::mock();
@@ -260,7 +295,25 @@ fn run_hist_case(r: &mut Rng, out: &mut Out, c: &HistCase) {
                 }
                 let same = |a: f64, b: f64| a.to_bits() == b.to_bits() || (a.is_nan() && b.is_nan()) || (a == 0.0 && b == 0.0);
                 if c.exact && !(same(s0, s1) && same(s0, s2)) {
-                    out.oracle_fail("recording singly and in batches gives different sums", &format!("{} {} {}", s0, s1, s2));
+                    out.oracle_fail(
+                        "recording singly and in batches gives different sums",
+                        &format!("bounds={:?} batches={:?} single={:e} record_samples={:e} mixed={:e}", c.bounds, c.batches, s0, s1, s2),
+                    );
+                }
+                // `_sum` covers all samples: the exact sum, computed here in integers (all finite values of the
+                // exact stream are n/1024 and every partial sum is below 2^53 units)
+                if c.exact && all.iter().all(|v| v.is_finite()) {
+                    let tot: i128 = all.iter().map(|v| (*v * 1024.0) as i128).sum();
+                    let want = tot as f64 / 1024.0;
+                    for (name, sv) in [("record", s0), ("record_samples", s1), ("mixed", s2)] {
+                        if !same(sv, want) {
+                            out.oracle_fail(
+                                "histogram sum is not the sum of all samples",
+                                &format!("{} bounds={:?} samples={:?} want {:e} got {:e}", name, c.bounds, all, want, sv),
+                            );
+                        }
+                    }
+                    out.count("H.sum checked against the exact integer sum");
                 }
                 if let Some(p) = &prev {
                     if p.iter().zip(b1.iter()).any(|(a, b)| a > b) {
@@ -306,6 +359,31 @@ fn hist_corpus() -> Vec<HistCase> {
     ]
 }
 
+/// corpus, observation only (no oracle, no model op: IEEE rounding is outside the model): `record` keeps a running sum
+/// `((s + a) + b)`, `record_many` adds a batch-local sum `s + (a + b)`.  In exact arithmetic they agree (`batch_equiv`);
+/// in f64 they can differ in the last place, and at the overflow threshold by an infinity.
+fn run_sum_rounding_observation(out: &mut Out) {
+    for (name, first, second) in [("overflow", vec![-f64::MAX], vec![f64::MAX, f64::MAX]), ("last place", vec![0.1], vec![0.2, 0.3])] {
+        let mut a = Histogram::new(&[1.0]).unwrap();
+        let mut b = Histogram::new(&[1.0]).unwrap();
+        for v in first.iter().chain(second.iter()) {
+            a.record(*v);
+        }
+        b.record_many(&first);
+        b.record_many(&second);
+        if a.buckets() != b.buckets() || a.count() != b.count() {
+            out.oracle_fail("recording singly and in batches gives different buckets", &format!("{:?} {:?}", first, second));
+        }
+        out.count(&format!(
+            "H.observation ({}): sum singly {:e} vs in batches {:e} ({})",
+            name,
+            a.sum(),
+            b.sum(),
+            if a.sum().to_bits() == b.sum().to_bits() { "identical" } else { "DIFFERENT" }
+        ));
+    }
+}
+
 // ---------------------------------------------------------------------------------------------
 // stream R
 
@@ -320,11 +398,20 @@ fn value_table() -> Vec<i64> {
     v
 }
 
+/// the relative error `Summary::with_defaults` documents ("alpha is 0.0001"), with room for the rounding of the
+/// sketch's own ln/exp (relative 1e-11 at most: keys are below 2^17)
+const SKETCH_ALPHA: f64 = 1.001e-4;
+/// "will support values down to a single nanosecond": magnitudes up to this are counted as zero
+const SKETCH_MIN_VALUE: f64 = 1.0e-9;
+
 struct RollCase {
     n: u32,
     d: u64,
     start: u64,
     decodable: bool,
+    /// decodable stream: every value is multiplied by 2^scale_exp before it reaches the real code (exact), the model
+    /// sees the unscaled n/1024; small magnitudes (down to 2e-9) and large ones reach the sketch that way
+    scale_exp: i32,
     /// (step before the event, event): event = Add(value) | Flush | Snap
     events: Vec<(u64, REv)>,
 }
@@ -342,7 +429,10 @@ fn gen_roll_case(r: &mut Rng, decodable: bool) -> RollCase {
     let start = *r.pick(&[0, 1, d - 1, d, w - 1, w, w + 1, 5 * w + 3]);
     let steps = [0, 0, 1, d - 1, d, d + 1, w - 1, w, w + 1, 3 * w, d / 2, 2 * d];
     let table = value_table();
-    let mixed: [f64; 14] = [
+    // the two last ones need more than 24 bits (a narrower `_sum` accumulator shows)
+    let mixed: [f64; 16] = [
+        dy((1 << 40) + 1),
+        dy(-(1 << 38) - 3),
         0.0,
         -0.0,
         1.0,
@@ -378,7 +468,8 @@ fn gen_roll_case(r: &mut Rng, decodable: bool) -> RollCase {
         events.push((step, ev));
     }
     events.push((*r.pick(&steps), REv::Snap));
-    RollCase { n, d, start, decodable, events }
+    let scale_exp = if decodable { *r.pick(&[-29i32, -24, -20, -17, -13, -10, -3, 0, 0, 7, 20, 40]) } else { 0 };
+    RollCase { n, d, start, decodable, scale_exp, events }
 }
 
 fn run_roll_case(out: &mut Out, c: &RollCase) {
@@ -389,6 +480,10 @@ fn run_roll_case(out: &mut Out, c: &RollCase) {
     let mut dist = Distribution::new_summary(quantiles, Duration::from_nanos(c.d), NonZeroU32::new(c.n).unwrap());
     out.op(&format!("c15 rnew {} {}", c.n, c.d), "ok");
     out.count(&format!("R.decodable={} n={} d={}", c.decodable, c.n, if c.d >= 1000 { "big" } else { "small" }));
+    let scale = (c.scale_exp as f64).exp2();
+    if c.decodable {
+        out.count(&format!("R.decodable scale=2^{}", c.scale_exp));
+    }
     let table = value_table();
     let mut pending: Vec<(f64, quanta::Instant)> = vec![];
     let mut pending_tok: Vec<String> = vec![];
@@ -407,7 +502,8 @@ fn run_roll_case(out: &mut Out, c: &RollCase) {
         t += *step;
         match ev {
             REv::Add(v) => {
-                pending.push((*v, clock.now()));
+                // the model and the oracle's own record keep the unscaled value
+                pending.push((*v * scale, clock.now()));
                 pending_tok.push(format!("{}@{}", fv_tok(*v, true), t));
                 added.push((*v, t));
                 out.count(&format!("R.step={}", step_class(*step, c.d, w)));
@@ -452,14 +548,17 @@ fn run_roll_case(out: &mut Out, c: &RollCase) {
                         } else {
                             (k as f64 + 0.5) / (retained as f64 - 1.0)
                         };
-                        let x = snap.quantile(q).unwrap_or(f64::NAN);
-                        match table.iter().find(|n| ((dy(**n) - x) / dy(**n)).abs() < 2e-3) {
+                        let x = snap.quantile(q).unwrap_or(f64::NAN) / scale;
+                        match table.iter().find(|n| ((dy(**n) - x) / dy(**n)).abs() <= SKETCH_ALPHA) {
                             Some(n) => decoded.push(*n),
                             None => {
                                 bad = true;
                                 out.oracle_fail(
                                     "summary quantile is not within the sketch's relative error of any recorded sample",
-                                    &format!("q={} value={}", q, x),
+                                    &format!(
+                                        "n={} d={} now={} adds(value/2^{}, ts)={:?} q={} value/2^{}={:e}",
+                                        c.n, c.d, now, c.scale_exp, added, q, c.scale_exp, x
+                                    ),
                                 );
                             }
                         }
@@ -468,7 +567,15 @@ fn run_roll_case(out: &mut Out, c: &RollCase) {
                     let dec_tok = if bad { "undecodable".to_string() } else { list(decoded.iter().map(|n| n.to_string())) };
                     out.op(
                         &format!("c15 rsnap {}", now),
-                        &format!("{} {} {} {} {} {}", count, fv_tok(sum, true), retained, dec_tok, fv_tok(snap.min(), true), fv_tok(snap.max(), true)),
+                        &format!(
+                            "{} {} {} {} {} {}",
+                            count,
+                            fv_tok(sum / scale, true),
+                            retained,
+                            dec_tok,
+                            fv_tok(snap.min() / scale, true),
+                            fv_tok(snap.max() / scale, true)
+                        ),
                     );
                     // lower ⊆ decoded ⊆ upper as multisets
                     let ms = |v: &Vec<f64>| {
@@ -499,8 +606,11 @@ fn run_roll_case(out: &mut Out, c: &RollCase) {
                         );
                     }
                     let exact_sum: i64 = added.iter().map(|(v, _)| (v * 1024.0) as i64).sum();
-                    if sum != dy(exact_sum) {
-                        out.oracle_fail("summary _sum does not cover all samples", &format!("{} vs {}", sum, dy(exact_sum)));
+                    if sum != dy(exact_sum) * scale {
+                        out.oracle_fail(
+                            "summary _sum does not cover all samples",
+                            &format!("{:e} vs {:e} (adds/2^{}: {:?})", sum, dy(exact_sum) * scale, c.scale_exp, added),
+                        );
                     }
                 } else {
                     let q50 = snap.quantile(0.5);
@@ -508,6 +618,16 @@ fn run_roll_case(out: &mut Out, c: &RollCase) {
                         &format!("c15 rsnapc {}", now),
                         &format!("{} {} {} {}", count, fv_tok(sum, true), retained, if q50.is_none() { "zero" } else { "some" }),
                     );
+                    // `_sum` covers all samples (exact: every value of this stream is n/1024, partial sums below 2^53 units)
+                    if added.iter().all(|(v, _)| v.is_finite()) {
+                        let tot: i128 = added.iter().map(|(v, _)| (*v * 1024.0) as i128).sum();
+                        if sum != tot as f64 / 1024.0 {
+                            out.oracle_fail(
+                                "summary _sum does not cover all samples",
+                                &format!("adds={:?}: _sum {:e}, exact sum {:e}", added, sum, tot as f64 / 1024.0),
+                            );
+                        }
+                    }
                     // the render path: `snapshot.quantile(q).unwrap_or(0.0)`
                     let has_nan = upper.iter().any(|v| v.is_nan());
                     if has_nan {
@@ -522,8 +642,10 @@ fn run_roll_case(out: &mut Out, c: &RollCase) {
                         } else if !has_nan {
                             let mn = upper.iter().cloned().fold(f64::INFINITY, f64::min);
                             let mx = upper.iter().cloned().fold(f64::NEG_INFINITY, f64::max);
-                            let slack = 1e-3 * mn.abs().max(mx.abs()) + 1e-9;
-                            if !(x >= mn - slack && x <= mx + slack) {
+                            // the stated relative error of the sketch, and its stated resolution around zero
+                            let lo = mn - SKETCH_ALPHA * mn.abs() - SKETCH_MIN_VALUE;
+                            let hi = mx + SKETCH_ALPHA * mx.abs() + SKETCH_MIN_VALUE;
+                            if !(x >= lo && x <= hi) {
                                 out.oracle_fail(
                                     "summary quantile outside [min,max] of the samples in the window",
                                     &format!(
@@ -571,6 +693,7 @@ fn roll_corpus() -> Vec<RollCase> {
             d: 20_000_000_000,
             start: 3_600_000_000_000,
             decodable: true,
+            scale_exp: 0,
             events: vec![(0, Add(tv(5))), (20_000_000_000, Add(tv(5))), (20_000_000_000, Add(tv(5))), (0, Snap), (20_000_000_000, Add(tv(2))), (0, Snap)],
         },
         // exact multiples of the duration, now == begin + dur, gaps, expiry at exactly W
@@ -579,6 +702,7 @@ fn roll_corpus() -> Vec<RollCase> {
             d: 10,
             start: 4,
             decodable: true,
+            scale_exp: 0,
             events: vec![
                 (0, Add(tv(1))),
                 (10, Add(tv(2))),
@@ -595,13 +719,14 @@ fn roll_corpus() -> Vec<RollCase> {
             ],
         },
         // one bucket only
-        RollCase { n: 1, d: 7, start: 0, decodable: true, events: vec![(0, Add(tv(1))), (6, Add(tv(2))), (0, Snap), (1, Snap), (0, Add(tv(3))), (0, Snap)] },
+        RollCase { n: 1, d: 7, start: 0, decodable: true, scale_exp: 0, events: vec![(0, Add(tv(1))), (6, Add(tv(2))), (0, Snap), (1, Snap), (0, Add(tv(3))), (0, Snap)] },
         // time below the window length: checked_sub fails, nothing may expire
         RollCase {
             n: 5,
             d: 1000,
             start: 0,
             decodable: true,
+            scale_exp: 0,
             events: vec![(0, Add(tv(1))), (1000, Add(tv(2))), (1000, Add(tv(3))), (1000, Add(tv(4))), (999, Snap), (1, Add(tv(5))), (0, Snap), (1000, Snap)],
         },
         // infinities are not retained, NaN is; the all-infinite window prints 0
@@ -610,12 +735,147 @@ fn roll_corpus() -> Vec<RollCase> {
             d: 10,
             start: 100,
             decodable: false,
+            scale_exp: 0,
             events: vec![(0, Add(inf)), (0, Snap), (1, Add(-inf)), (0, Snap), (1, Add(f64::NAN)), (0, Snap), (1, Add(2.0)), (0, Snap), (30, Snap)],
         },
         // newest bucket without a positive sample, older bucket whose sketch stayed empty
-        RollCase { n: 2, d: 10, start: 0, decodable: false, events: vec![(0, Add(inf)), (10, Add(-1.0)), (0, Snap)] },
-        RollCase { n: 3, d: 10, start: 50, decodable: false, events: vec![(0, Add(-inf)), (10, Add(0.0)), (10, Add(-2.0)), (0, Snap)] },
+        RollCase { n: 2, d: 10, start: 0, decodable: false, scale_exp: 0, events: vec![(0, Add(inf)), (10, Add(-1.0)), (0, Snap)] },
+        RollCase { n: 3, d: 10, start: 50, decodable: false, scale_exp: 0, events: vec![(0, Add(-inf)), (10, Add(0.0)), (10, Add(-2.0)), (0, Snap)] },
     ]
+}
+
+// ---------------------------------------------------------------------------------------------
+// stream Q: every configured quantile of a summary, at the sketch's documented figures, for magnitudes from below the
+// zero threshold (1e-9) up to 1e5.  Values are integers in units of 2^-40; the model (`Rolling.snapshotQuantile`)
+// names THE SAMPLE whose bin answers, the harness decodes the real answer to the sample within alpha of it.
+
+const UNIT_EXP: i32 = -40;
+/// floor(1e-9 / 2^-40): values of at most this many units are zeros to the sketch (`src_sketch_parameters`)
+const MIN_UNITS: i64 = 1099;
+
+fn run_quantile_case(r: &mut Rng, out: &mut Out) {
+    let unit = (UNIT_EXP as f64).exp2();
+    let n = r.range(1, 4) as u32;
+    let d = *r.pick(&[10u64, 1000, 1_000_000_000]);
+    let w = n as u64 * d;
+    // magnitudes of one case stay within a factor 8 (plus the zero class): far from the 700x at which the sketch
+    // starts collapsing its lowest bins (documented loss of accuracy, outside the stated relative error)
+    let e = *r.pick(&[11u32, 12, 14, 17, 22, 27, 30, 40, 45, 57]);
+    let table = value_table();
+    let (clock, mock) = Clock::mock();
+    let start = *r.pick(&[0, d, 7 * w + 3]);
+    mock.increment(start);
+    let mut t = start;
+    let quantiles = Arc::new(parse_quantiles(&[0.0, 0.5, 1.0]));
+    let mut dist = Distribution::new_summary(quantiles, Duration::from_nanos(d), NonZeroU32::new(n).unwrap());
+    out.op(&format!("c15 rnew {} {}", n, d), "ok");
+    out.op(&format!("c15 runit {}", MIN_UNITS), "ok");
+    out.count(&format!("Q.magnitude=2^{}", e as i32 + UNIT_EXP));
+    let mut added: Vec<(Option<i64>, u64)> = vec![]; // (units; None = NaN, ts)
+    let rounds = r.range(1, 4);
+    let mut nontrivial = false;
+    for _ in 0..rounds {
+        let nadd = r.range(1, 24);
+        let mut batch: Vec<(f64, quanta::Instant)> = vec![];
+        let mut toks: Vec<String> = vec![];
+        for _ in 0..nadd {
+            let step = *r.pick(&[0, 0, 0, 1, d / 2, d, d + 1, w - 1]);
+            mock.increment(step);
+            t += step;
+            let m = (*r.pick(&table)) << (e - 10);
+            let v: Option<i64> = match r.below(40) {
+                0..=21 => Some(m),
+                22..=31 => Some(-m),
+                32..=36 => Some(*r.pick(&[0i64, 1, -1, 500, -777, MIN_UNITS, -MIN_UNITS])),
+                37 | 38 => {
+                    if e <= 14 {
+                        Some(*r.pick(&[MIN_UNITS + 1, -MIN_UNITS - 1]))
+                    } else {
+                        Some(m)
+                    }
+                }
+                _ => None,
+            };
+            let f = v.map(|u| u as f64 * unit).unwrap_or(f64::NAN);
+            batch.push((f, clock.now()));
+            toks.push(format!("{}@{}", v.map(|u| u.to_string()).unwrap_or("nan".into()), t));
+            added.push((v, t));
+            out.count(match v {
+                None => "Q.sample NaN",
+                Some(u) if u.abs() <= MIN_UNITS => "Q.sample in the zero class (|v| <= 1e-9)",
+                Some(u) if u.abs() == MIN_UNITS + 1 => "Q.sample just above 1e-9",
+                Some(u) if u > 0 => "Q.sample positive",
+                _ => "Q.sample negative",
+            });
+        }
+        dist.record_samples(&batch);
+        out.op(&format!("c15 radd {}", list(toks.into_iter())), "ok");
+        let step = *r.pick(&[0, 0, 1, d, w - 1, w, w + 1]);
+        mock.increment(step);
+        t += step;
+        let summary = match &dist {
+            Distribution::Summary(s, _, _) => s,
+            _ => unreachable!(),
+        };
+        let snap = summary.snapshot(clock.now());
+        let retained = snap.count();
+        // brute-force window (bucket-granular: `upper` is everything that may still be there)
+        let upper: Vec<Option<i64>> = added.iter().filter(|(_, ts)| ts + w > t).map(|x| x.0).collect();
+        if upper.len() < added.len() && !upper.is_empty() {
+            nontrivial = true;
+        }
+        let is_zero_class = |v: &Option<i64>| v.map(|u| u.abs() <= MIN_UNITS).unwrap_or(true);
+        for (num, den) in [(1u64, 2u64), (1, 4), (3, 4), (1, 8), (7, 8), (1, 16), (15, 16), (1, 1024), (1023, 1024)] {
+            let q = num as f64 / den as f64;
+            let ans = snap.quantile(q);
+            let tok = match ans {
+                None => "none".to_string(),
+                Some(x) if x == 0.0 => "zero".to_string(),
+                Some(x) => {
+                    // the sample (of all that were ever added) within the stated relative error of the answer
+                    let xu = x / unit;
+                    let mut cands: Vec<i64> =
+                        added.iter().filter_map(|a| a.0).filter(|u| u.abs() > MIN_UNITS && ((xu - *u as f64) / *u as f64).abs() <= SKETCH_ALPHA).collect();
+                    cands.sort();
+                    cands.dedup();
+                    if cands.len() == 1 {
+                        cands[0].to_string()
+                    } else {
+                        out.oracle_fail(
+                            "summary quantile is not within the sketch's relative error of any recorded sample",
+                            &format!(
+                                "new_summary(n={}, d={} ns), adds (units of 2^-40, ts)={:?}, snapshot at {}: quantile({}) = {:e} = {} units",
+                                n, d, added, t, q, x, xu
+                            ),
+                        );
+                        "undecodable".to_string()
+                    }
+                }
+            };
+            // ---- oracle (independent of the model): the answer is (the bin of) a sample of the window
+            let ok = match ans {
+                None => retained == 0,
+                Some(x) if x == 0.0 => upper.iter().any(is_zero_class),
+                Some(x) => upper.iter().any(|v| match v {
+                    Some(u) if u.abs() > MIN_UNITS => ((x / unit - *u as f64) / *u as f64).abs() <= SKETCH_ALPHA,
+                    _ => false,
+                }),
+            };
+            if !ok {
+                out.oracle_fail(
+                    "summary quantile outside [min,max] of the samples in the window",
+                    &format!(
+                        "new_summary(n={}, d={} ns), adds (units of 2^-40, ts)={:?}, snapshot at {}: quantile({}) = {:?}, not (the bin of) any sample younger than the window",
+                        n, d, added, t, q, ans
+                    ),
+                );
+            }
+            out.op(&format!("c15 rquant {} {} {}", t, num, den), &tok);
+        }
+    }
+    if nontrivial {
+        out.nontrivial();
+    }
 }
 
 // ---------------------------------------------------------------------------------------------
@@ -817,27 +1077,46 @@ fn dist_corpus() -> Vec<DistCase> {
 // stream W: the window through a real recorder (record and render under `quanta::with_clock`)
 
 fn run_window_session(r: &mut Rng, out: &mut Out) {
-    let n = r.range(1, 4) as u32;
-    let d_s = *r.pick(&[1u64, 5, 20]);
-    let d = d_s * 1_000_000_000;
+    // either setter may be left out: the documentation promises 3 buckets ("Defaults to 3") of 20 s ("Defaults to 20
+    // seconds") for whichever was not set, independently of the other
+    let set_n: Option<u32> = if r.chance(2, 3) { Some(*r.pick(&[1u32, 2, 3, 4, 5, 7])) } else { None };
+    let set_d: Option<u64> = if r.chance(2, 3) { Some(*r.pick(&[1u64, 5, 20, 30]) * 1_000_000_000) } else { None };
+    let n = set_n.unwrap_or(3);
+    let d = set_d.unwrap_or(20_000_000_000);
     let w = n as u64 * d;
     let (clock, mock) = Clock::mock();
     let start = *r.pick(&[0, d, 10 * w + 17]);
     mock.increment(start);
     let mut t: u64 = start;
-    let rec = PrometheusBuilder::new()
-        .set_quantiles(&[0.0, 0.5, 1.0])
-        .unwrap()
-        .set_bucket_duration(Duration::from_nanos(d))
-        .unwrap()
-        .set_bucket_count(NonZeroU32::new(n).unwrap())
-        .build_recorder();
+    let mut b = PrometheusBuilder::new().set_quantiles(&[0.0, 0.5, 1.0]).unwrap();
+    // in either order
+    let count_first = r.chance(1, 2);
+    if count_first {
+        if let Some(c) = set_n {
+            b = b.set_bucket_count(NonZeroU32::new(c).unwrap());
+        }
+    }
+    if let Some(dd) = set_d {
+        b = b.set_bucket_duration(Duration::from_nanos(dd)).unwrap();
+    }
+    if !count_first {
+        if let Some(c) = set_n {
+            b = b.set_bucket_count(NonZeroU32::new(c).unwrap());
+        }
+    }
+    let rec = b.build_recorder();
     let handle = rec.handle();
     let key = Key::from_name("win");
-    out.op(&format!("c15 rnew {} {}", n, d), "ok");
+    out.count(&format!("W.bucket_count set={} bucket_duration set={}", set_n.is_some(), set_d.is_some()));
+    // the model resolves the window (`DistBuilder.windowOf`); the implementation's window is observed through what
+    // expires when (oracle below) — the answer column is the documented expectation
+    out.op(
+        &format!("c15 rnewcfg {} {}", set_n.map(|x| x.to_string()).unwrap_or("~".into()), set_d.map(|x| x.to_string()).unwrap_or("~".into())),
+        &format!("{} {}", n, d),
+    );
     let table = value_table();
     let mut added: Vec<(f64, u64)> = vec![];
-    let steps = [0, 1, d / 2, d, d + 1, w - 1, w, w + 1, 3 * w];
+    let steps = [0, 1, d / 2, d, d + 1, w - 1, w, w + 1, 3 * w, (w - d).saturating_sub(1), w - d / 2 - 1, (w - d).saturating_sub(d / 2)];
     let nev = r.range(2, 12);
     for i in 0..=nev {
         let step = *r.pick(&steps);
@@ -864,6 +1143,7 @@ fn run_window_session(r: &mut Rng, out: &mut Out) {
             let sum = get("win_sum", None).unwrap_or(f64::NAN);
             let q0 = get("win", Some("0")).unwrap_or(f64::NAN);
             let q1 = get("win", Some("1")).unwrap_or(f64::NAN);
+            let q50 = get("win", Some("0.5")).unwrap_or(f64::NAN);
             let upper: Vec<f64> = added.iter().filter(|(_, ts)| ts + w > t).map(|x| x.0).collect();
             let lower: Vec<f64> = added.iter().filter(|(_, ts)| ts + w > t + d).map(|x| x.0).collect();
             out.count(&format!("W.render window={}", if upper.is_empty() { "empty" } else if upper.len() < added.len() { "partial" } else { "all" }));
@@ -871,25 +1151,26 @@ fn run_window_session(r: &mut Rng, out: &mut Out) {
             if count != added.len() as f64 || sum != dy(exact_sum) || f.ty != "summary" {
                 out.oracle_fail("rendered summary _count/_sum do not cover all samples", &format!("{} {} vs {:?}", count, sum, added));
             }
-            let near = |x: f64, y: f64| ((x - y) / y).abs() < 2e-3;
+            // q=0 and q=1 are the sketch's exact min/max; q=0.5 is within the stated relative error of a sample
+            let near = |x: f64, y: f64| ((x - y) / y).abs() <= SKETCH_ALPHA;
             let fmin = |v: &Vec<f64>| v.iter().cloned().fold(f64::INFINITY, f64::min);
             let fmax = |v: &Vec<f64>| v.iter().cloned().fold(f64::NEG_INFINITY, f64::max);
+            let mid_ok = upper.iter().any(|v| near(q50, *v));
             let ok = if upper.is_empty() {
-                q0 == 0.0 && q1 == 0.0
+                q0 == 0.0 && q1 == 0.0 && q50 == 0.0
             } else if lower.is_empty() {
                 // the bucket holding the only candidates may or may not have been dropped yet
-                (q0 == 0.0 && q1 == 0.0) || (q0 >= fmin(&upper) * (1.0 - 2e-3) && q1 <= fmax(&upper) * (1.0 + 2e-3))
+                (q0 == 0.0 && q1 == 0.0 && q50 == 0.0) || (q0 >= fmin(&upper) && q1 <= fmax(&upper) && mid_ok)
             } else {
-                q0 >= fmin(&upper) * (1.0 - 2e-3)
-                    && q1 <= fmax(&upper) * (1.0 + 2e-3)
-                    && (q0 <= fmin(&lower) * (1.0 + 2e-3))
-                    && (q1 >= fmax(&lower) * (1.0 - 2e-3))
+                q0 >= fmin(&upper) && q1 <= fmax(&upper) && q0 <= fmin(&lower) && q1 >= fmax(&lower) && mid_ok
             };
-            let _ = near;
             if !ok {
                 out.oracle_fail(
                     "rendered quantiles are not those of the samples inside the rolling window (0 when empty)",
-                    &format!("n={} d={} now={} adds={:?} q0={} q1={}", n, d, t, added, q0, q1),
+                    &format!(
+                        "set_bucket_count({:?}) set_bucket_duration({:?} ns): expected window {} x {} ns; now={} adds={:?} rendered q0={} q0.5={} q1={}",
+                        set_n, set_d, n, d, t, added, q0, q50, q1
+                    ),
                 );
             }
             if upper.len() < added.len() {
@@ -955,6 +1236,72 @@ fn run_render_inf_case(out: &mut Out, first: f64, second: f64) {
     out.count("W.corpus render with an infinite sample");
 }
 
+/// corpus: more than one bucket block (BLOCK_SIZE = 64 samples on 64-bit targets) recorded between two upkeeps, the clock passing a window-bucket
+/// boundary in between.  `AtomicBucket::clear_with` hands the NEWEST block to `record_samples` first, so the rolling
+/// summary sees decreasing timestamps — outside the property's quantifier ("non-decreasing sample timestamps"), but it
+/// is what a busy histogram does.  Compared with the model (which follows the code: the older samples find no bucket and
+/// are dropped from the quantiles although they are inside the window); `_count`/`_sum` must still cover everything.
+fn run_multiblock_drain_case(out: &mut Out, first: usize, second: usize) {
+    let d: u64 = 10_000_000_000;
+    let (clock, mock) = Clock::mock();
+    let rec = PrometheusBuilder::new()
+        .set_quantiles(&[0.0, 0.5, 1.0])
+        .unwrap()
+        .set_bucket_duration(Duration::from_nanos(d))
+        .unwrap()
+        .set_bucket_count(NonZeroU32::new(3).unwrap())
+        .build_recorder();
+    let handle = rec.handle();
+    let key = Key::from_name("win");
+    out.op(&format!("c15 rnewcfg 3 {}", d), &format!("3 {}", d));
+    let h = rec.register_histogram(&key, &META);
+    quanta::with_clock(&clock, || (0..first).for_each(|_| h.record(1.0)));
+    mock.increment(d + 1);
+    quanta::with_clock(&clock, || (0..second).for_each(|_| h.record(2.0)));
+    handle.run_upkeep();
+    // drain order: blocks of 64 in recording order, handed over newest block first
+    let all: Vec<(i64, u64)> = (0..first).map(|_| (1024i64, 0u64)).chain((0..second).map(|_| (2048i64, d + 1))).collect();
+    let blocks: Vec<&[(i64, u64)]> = all.chunks(64).collect();
+    for b in blocks.iter().rev() {
+        out.op(&format!("c15 radd {}", list(b.iter().map(|(v, t)| format!("{}@{}", v, t)))), "ok");
+    }
+    let text = quanta::with_clock(&clock, || handle.render());
+    let fams = expo::check_exposition(&text).unwrap_or_default();
+    let Some(f) = fams.iter().find(|f| f.name == "win") else {
+        out.oracle_fail("rendered summary is missing", &text);
+        return;
+    };
+    let get = |name: &str, q: Option<&str>| -> Option<f64> {
+        f.samples
+            .iter()
+            .find(|(sn, ls, _)| sn == name && ls.iter().find(|(k, _)| k == "quantile").map(|x| x.1.as_str()) == q)
+            .and_then(|x| x.2.parse::<f64>().ok())
+    };
+    let count = get("win_count", None).unwrap_or(-1.0);
+    let sum = get("win_sum", None).unwrap_or(f64::NAN);
+    let q0 = get("win", Some("0")).unwrap_or(f64::NAN);
+    let q50 = get("win", Some("0.5")).unwrap_or(f64::NAN);
+    if count != (first + second) as f64 || sum != first as f64 + 2.0 * second as f64 {
+        out.oracle_fail("rendered summary _count/_sum do not cover all samples", &format!("{} {} vs {} + {}", count, sum, first, second));
+    }
+    let tok = if ((q50 - 1.0) / 1.0).abs() <= SKETCH_ALPHA {
+        "1024"
+    } else if ((q50 - 2.0) / 2.0).abs() <= SKETCH_ALPHA {
+        "2048"
+    } else {
+        out.oracle_fail("summary quantile is not within the sketch's relative error of any recorded sample", &format!("q0.5={}", q50));
+        "undecodable"
+    };
+    out.op(&format!("c15 rquant {} 1 2", d + 1), tok);
+    out.op(&format!("c15 rsnapq {}", d + 1), &format!("{} {} some", count as u64, fv_tok(sum, true)));
+    if q0 != 1.0 {
+        // all `first` samples of value 1.0 are d+1 ns old, the window is 3d: they are inside it, yet the minimum shown is 2.0
+        out.count("W.observation: multi-block drain (decreasing timestamps) dropped in-window samples from the quantiles");
+    } else {
+        out.count("W.multi-block drain kept the older block");
+    }
+}
+
 // ---------------------------------------------------------------------------------------------
 
 pub fn run(cfg: &Cfg, out: &mut Out) {
@@ -965,6 +1312,8 @@ pub fn run(cfg: &Cfg, out: &mut Out) {
         let mut r = root.fork(1_000_000 + i as u64);
         run_hist_case(&mut r, out, c);
     }
+    out.case("corpus sum rounding observation");
+    run_sum_rounding_observation(out);
     for (i, c) in roll_corpus().iter().enumerate() {
         out.case(&format!("corpus roll {}", i));
         run_roll_case(out, c);
@@ -977,6 +1326,12 @@ pub fn run(cfg: &Cfg, out: &mut Out) {
     run_render_inf_case(out, f64::INFINITY, -1.0);
     out.case("corpus render -inf,0");
     run_render_inf_case(out, f64::NEG_INFINITY, 0.0);
+    out.case("corpus multi-block drain 64+24");
+    run_multiblock_drain_case(out, 64, 24);
+    out.case("corpus multi-block drain 300+300");
+    run_multiblock_drain_case(out, 300, 300);
+    out.case("corpus single-block drain 30+30");
+    run_multiblock_drain_case(out, 30, 30);
     for i in 0..cfg.cases {
         let mut r = root.fork(i as u64);
         match i % 8 {
@@ -995,10 +1350,14 @@ pub fn run(cfg: &Cfg, out: &mut Out) {
                 let c = gen_roll_case(&mut r, true);
                 run_roll_case(out, &c);
             }
-            4 => {
+            4 if (i / 8) % 2 == 0 => {
                 out.case(&format!("seed={} i={} roll mixed", cfg.seed, i));
                 let c = gen_roll_case(&mut r, false);
                 run_roll_case(out, &c);
+            }
+            4 => {
+                out.case(&format!("seed={} i={} roll quantiles", cfg.seed, i));
+                run_quantile_case(&mut r, out);
             }
             5 => {
                 out.case(&format!("seed={} i={} dist", cfg.seed, i));
